@@ -191,7 +191,11 @@ def tie(ctx, res, texts, label='end_to_end_bash', binary_max=None):
         replay = dict(kind='tie-compile-bash', grammar=t.decode('latin-1'), model=o[:1500], binary_rc=b['rc'],
                       binary_stderr=b['stderr'][-400:].decode('latin-1'), impl={k: v[:600] for k, v in st.items()})
         if 'CRASH' in st or 'PANIC' in st or b['timed_out'] or b['rc'] not in (0, 1):
-            continue            # crashes of the implementation are C06's business
+            # a crash of the implementation (also C06's business) must not let the tie pass for lack of cases
+            res.violations.append(report.Violation('the implementation crashed on a corpus grammar (%s, binary rc %s)'
+                                                   % ((st.get('PANIC') or st.get('CRASH') or 'binary')[:120], b['rc']),
+                                                   dict(replay, kind='crash')))
+            continue
         try:
             m = sexp.parse(o)
         except Exception:
